@@ -15,6 +15,7 @@
    and of the client that chains pages (api.Select and the resume kinds of the property).
    Definitions only. *)
 From LR Require Import lib.Base.
+From Coq Require Import Sorting.Sorted.
 
 (* ------------------------------------------------------------------ stored data *)
 Record event := mkEv { e_ts : Z; e_msg : bytes; e_flds : bytes }.   (* e_flds = [] <-> header bit 0 clear *)
@@ -427,6 +428,27 @@ Definition pos_of (st : store) (i : nat) (p : pos_t) : nat :=        (* records 
   | Some pt, PList pl => match assoc_pos (p_src pt) pl with Some pos => flat (p_jrnl pt) pos | None => O end
   | _, _ => O
   end.
+
+(* the filter in effect: fltF && fitInRange when the cursor has a fiterator, nothing otherwise *)
+Definition eff_flt (filtered : bool) (flt : oev -> bool) (ev : oev) : bool := if filtered then flt ev else true.
+(* the merge picks a source that has an event whenever some source has one *)
+Definition choose_valid (choose : nat -> list (option oev) -> nat) : Prop :=
+  forall t hs k ev, nth_error hs k = Some (Some ev) -> exists ev', nth_error hs (choose t hs) = Some (Some ev').
+(* the last page came back with fewer events than its (clamped) limit: the read reached the end *)
+Fixpoint last_page_short (steps : list pstep) (rs : list result) : Prop :=
+  match steps, rs with
+  | s :: tl, r :: rs' =>
+      match tl with
+      | [] => (length (rs_events r) < N.to_nat (N.min (s_limit s) query_max_limit))%nat
+      | _ => last_page_short tl rs'
+      end
+  | _, _ => False
+  end.
+Definition no_retry (steps : list pstep) : Prop := Forall (fun s => s_kind s <> RRetry) steps.
+Definition no_appends (steps : list pstep) : Prop := Forall (fun s => s_apps s = []) steps.
+Definition wf_journal (j : journal) : Prop := StronglySorted (fun a b => (c_id a < c_id b)%N) j.
+(* partitions have different sources; Chunks() of every journal is sorted by chunk id *)
+Definition wf_store (st : store) : Prop := NoDup (map p_src st) /\ Forall (fun p => wf_journal (p_jrnl p)) st.
 
 (* ------------------------------------------------------------------ instances used by the correspondence check *)
 (* the merge of the implementation on stores whose timestamps are pairwise different: earliest head *)
